@@ -86,18 +86,21 @@ func (_this *recordTypeBuilder) BuildFromBigDecimalFloat(ctx *Context, value *ap
 	return dst
 }
 func (_this *recordTypeBuilder) BuildFromUID(ctx *Context, value []byte, dst reflect.Value) reflect.Value {
+	value = append([]byte(nil), value...) // the caller's buffer is only valid during this call
 	ctx.AddRecordTypeKey(func(c *Context, builder Builder) {
 		builder.BuildFromUID(c, value, unusedValue)
 	})
 	return dst
 }
 func (_this *recordTypeBuilder) BuildFromArray(ctx *Context, arrayType events.ArrayType, value []byte, dst reflect.Value) reflect.Value {
+	value = append([]byte(nil), value...) // the caller's buffer is only valid during this call
 	ctx.AddRecordTypeKey(func(c *Context, builder Builder) {
 		builder.BuildFromArray(c, arrayType, value, unusedValue)
 	})
 	return dst
 }
 func (_this *recordTypeBuilder) BuildFromStringlikeArray(ctx *Context, arrayType events.ArrayType, value string, dst reflect.Value) reflect.Value {
+	value = string([]byte(value)) // the string may alias the caller's buffer
 	ctx.AddRecordTypeKey(func(c *Context, builder Builder) {
 		builder.BuildFromStringlikeArray(c, arrayType, value, unusedValue)
 	})
